@@ -871,6 +871,42 @@ impl<'a> Engine<'a> {
         }
     }
 
+    /// a commit without any write (empty batch, or reads only): it still is a commit — a delta is logged,
+    /// the sequence number advances — and a later rollback must treat it as one
+    fn op_commit_no_writes(&mut self) {
+        let view = self.committed.clone();
+        let Some((sid, s)) = self.begin(&[]) else { return };
+        let mut actuals: Vec<(Key, KeyReadWrite)> = Vec::new();
+        if self.rng.chance(1, 2) {
+            let mut ks: Vec<Key> = (0..self.rng.range(1, 3)).map(|_| self.gen_key()).collect();
+            ks.sort();
+            ks.dedup();
+            for k in ks {
+                actuals.push((k, KeyReadWrite::Read(view.get(&k).cloned())));
+            }
+        }
+        let prev_root = s.prev_root().into_inner();
+        let fid = self.fins.len();
+        let op = format!("finish {} {} -", sid, fid);
+        match catch_unwind(AssertUnwindSafe(move || s.finish(actuals))) {
+            Ok(Ok(fin)) => {
+                let root = fin.root().into_inner();
+                if root != prev_root {
+                    self.out.fail("C02 a session without writes changed the root".into());
+                }
+                self.out.line(op, hex(&root));
+                self.fins.push(FinInfo { fin: Some(fin), writes: vec![], view_after: view, prev_root, root, chain: vec![] });
+                self.ev("write_free_commits");
+                let nb = self.rng.chance(1, 4);
+                self.commit_fin(fid, nb);
+            }
+            _ => {
+                self.out.fail("finish of a write-free session failed".into());
+                self.out.line(op, "error".into());
+            }
+        }
+    }
+
     fn op_overlay_new(&mut self) {
         // base: committed state or a held overlay tip
         let held: Vec<usize> = (0..self.ovs.len()).filter(|&i| self.ovs[i].handle.is_some() && !self.ovs[i].committed && self.fork_valid(i)).collect();
@@ -1268,6 +1304,7 @@ impl<'a> Engine<'a> {
         }
         match which {
             "commit" => self.op_commit(),
+            "commit_nw" => self.op_commit_no_writes(),
             "overlay_new" => self.op_overlay_new(),
             "overlay_commit" => self.op_overlay_commit(),
             "overlay_drop" => self.op_overlay_drop(),
@@ -1298,6 +1335,7 @@ impl<'a> Engine<'a> {
 
 pub const W_GENERAL: &[(usize, &str)] = &[
     (10, "commit"),
+    (1, "commit_nw"),
     (6, "overlay_new"),
     (4, "overlay_commit"),
     (1, "overlay_drop"),
@@ -1312,10 +1350,10 @@ pub const W_GENERAL: &[(usize, &str)] = &[
 pub fn weights_for(focus: &str) -> Vec<(usize, &'static str)> {
     match focus {
         "kv" => vec![(12, "commit"), (2, "overlay_new"), (2, "overlay_commit"), (1, "rollback"), (2, "reopen"), (1, "read_all")],
-        "rollback" => vec![(8, "commit"), (3, "overlay_new"), (3, "overlay_commit"), (8, "rollback"), (3, "reopen"), (2, "stale")],
+        "rollback" => vec![(8, "commit"), (3, "commit_nw"), (3, "overlay_new"), (3, "overlay_commit"), (8, "rollback"), (3, "reopen"), (2, "stale")],
         "overlay" => vec![(3, "commit"), (10, "overlay_new"), (6, "overlay_commit"), (2, "overlay_drop"), (3, "bad_chain"), (2, "rollback"), (1, "reopen"), (1, "stale")],
         "reject" => vec![(4, "commit"), (3, "overlay_new"), (3, "overlay_commit"), (8, "stale"), (4, "busy"), (4, "rollback"), (1, "reopen")],
-        "reopen" => vec![(8, "commit"), (3, "overlay_new"), (3, "overlay_commit"), (3, "rollback"), (8, "reopen"), (1, "stale")],
+        "reopen" => vec![(8, "commit"), (1, "commit_nw"), (3, "overlay_new"), (3, "overlay_commit"), (3, "rollback"), (8, "reopen"), (1, "stale")],
         _ => W_GENERAL.to_vec(),
     }
 }
@@ -1350,6 +1388,17 @@ pub fn run(seed: u64, cases: usize, out: &mut Sink, focus: &str, nops: usize, bi
                 let deep = diverge_at(&mut e.rng, &last, dd);
                 u.push(deep);
                 u.push(base);
+                // the exact boundary keys of the cluster prefix: P·1·00…0 and P·0·11…1
+                let pd = d.min(250);
+                let (mut lo, mut hi) = (base, base);
+                set_bit(&mut lo, pd, false);
+                set_bit(&mut hi, pd, true);
+                for i in pd + 1..256 {
+                    set_bit(&mut lo, i, true);
+                    set_bit(&mut hi, i, false);
+                }
+                u.push(lo);
+                u.push(hi);
             }
             e.pool = u;
         }
